@@ -26,12 +26,29 @@ def lane_class(lang):
     raise KeyError(lang)
 
 
+SPELL_SEED = 20260929     # fixed, like the protocol pools: which protocol is written in which spelling does not vary with VERIF_SEED
+
+
+def spelled(p):
+    """the text a wire lane compiles: about half of the protocols in the canonical spelling, the others with the meaning-preserving
+    rewrites of C08 at random sites (aliases, string/char[], zchar vs NUL pad, explicit default pads/options, attribute placement,
+    key lists, MetaData-typed vs inlined, separators, leading-zero lengths) plus inert @tag(n) attributes, in a random layout."""
+    rng = random.Random('%s/%s/spell' % (SPELL_SEED, p.tag))
+    if rng.random() < 0.5 or getattr(p, 'canonical_only', False):
+        return dslprint.render(p)
+    sp = dslprint.Spelling(rng=rng, p=0.5, tag_attr=True, doc_toggle=rng.random() < 0.5)
+    toks = dslprint.tokens(p, sp)
+    if rng.random() < 0.3:
+        toks = dslprint.insert_comments(toks, rng, p=0.05)
+    return dslprint.layout(toks, rng.choice(['pretty', 'pretty', 'oneline', 'tight', 'tabs']), rng)[0]
+
+
 def make_items(v, protos, langs, seed, shapes, need_root=True):
     """compile each protocol with fin-protoc (in-process hook) and attach workload. returns (items, rejected)"""
     items = []
     rejected = []
     for p in protos:
-        text = dslprint.render(p)
+        text = spelled(p)
         try:
             r = v.compile(text, langs)
         except tools.VapiDied as e:
